@@ -93,6 +93,7 @@ impl SymbolicAsyncGraph {
     pub fn trap_forward(&self, _s: &GraphColoredVertices) -> GraphColoredVertices { unimplemented!() }
     pub fn trap_backward(&self, _s: &GraphColoredVertices) -> GraphColoredVertices { unimplemented!() }
     pub fn mk_unit_colors(&self) -> GraphColors { unimplemented!() }
+    pub fn restrict(&self, _s: &GraphColoredVertices) -> SymbolicAsyncGraph { unimplemented!() }
     pub fn variables(&self) -> VariableIdIterator { unimplemented!() }
     pub fn get_variable_name(&self, _v: VariableId) -> String { unimplemented!() }
     pub fn as_network(&self) -> Option<&BooleanNetwork> { unimplemented!() }
